@@ -52,6 +52,19 @@ try:
 except BaseException as e:  # noqa
     print("ERR budget %s: %s" % (type(e).__name__, e))
 
+import inspect
+for cname in ("redecl", "redecl_child", "neg_holder"):
+    try:
+        print("CTOR %s %s" % (cname, ",".join(list(inspect.signature(getattr(mod, cname).__init__).parameters)[1:])))
+    except BaseException as e:  # noqa
+        print("CTOR %s error:%s" % (cname, type(e).__name__))
+for tname in ("arr_neg", "lst_expr"):
+    try:
+        d = vars(getattr(mod, tname))
+        print("BOUNDS %s %s:%s" % (tname, d.get("_bound_1"), d.get("_bound_2")))
+    except BaseException as e:  # noqa
+        print("BOUNDS %s error:%s" % (tname, type(e).__name__))
+
 try:
     kw = mod.kw_user(INTEGER(3), INTEGER(4), STRING("it's"))
     try:
